@@ -42,3 +42,31 @@ package config
 //@ ensures idx >= 0 && !set0 ==> len(result) == len(name) - idx - 2 && forall i in 0..len(result): result[i] == name[idx + 2 + i]
 //@ ensures idx == -1 && set1 ==> result == val1
 //@ ensures idx == -1 && !set1 ==> result == match
+
+// ---- C35: the redacted copy shows no secret and leaves the original alone ----
+//
+// Every secret field of the result is empty or the fixed marker. Redacted has no modifies clause: the frame
+// obligations prove that nothing that existed before the call is written (the copy is built by the YAML
+// round trip - a trusted deep copy - and only the copy is edited).
+
+//@ func redact
+//@ prop C35
+//@ modifies contents(s)
+//@ ensures *s == "" || *s == "[REDACTED]"
+
+//@ func (*Config).Redacted
+//@ prop C35
+//@ requires c != nil
+//@ loop 0 invariant (redacted.TLS.Key == "" || redacted.TLS.Key == "[REDACTED]") && (redacted.TLS.KeyPEM == "" || redacted.TLS.KeyPEM == "[REDACTED]")
+//@ loop 0 invariant -1 <= rangeindex && rangeindex < len(redacted.Peers) && forall j in 0..rangeindex+1: (redacted.Peers[j].ProxyAuth.Password == "" || redacted.Peers[j].ProxyAuth.Password == "[REDACTED]") && (redacted.Peers[j].TLS.Key == "" || redacted.Peers[j].TLS.Key == "[REDACTED]") && (redacted.Peers[j].TLS.KeyPEM == "" || redacted.Peers[j].TLS.KeyPEM == "[REDACTED]")
+//@ loop 1 invariant (redacted.TLS.Key == "" || redacted.TLS.Key == "[REDACTED]") && (redacted.TLS.KeyPEM == "" || redacted.TLS.KeyPEM == "[REDACTED]")
+//@ loop 1 invariant -1 <= rangeindex && rangeindex < len(redacted.Listeners) && forall j in 0..rangeindex+1: (redacted.Listeners[j].TLS.Key == "" || redacted.Listeners[j].TLS.Key == "[REDACTED]") && (redacted.Listeners[j].TLS.KeyPEM == "" || redacted.Listeners[j].TLS.KeyPEM == "[REDACTED]")
+//@ loop 2 invariant (redacted.TLS.Key == "" || redacted.TLS.Key == "[REDACTED]") && (redacted.TLS.KeyPEM == "" || redacted.TLS.KeyPEM == "[REDACTED]")
+//@ loop 2 invariant -1 <= rangeindex && rangeindex < len(redacted.SOCKS5.Auth.Users) && forall j in 0..rangeindex+1: (redacted.SOCKS5.Auth.Users[j].Password == "" || redacted.SOCKS5.Auth.Users[j].Password == "[REDACTED]") && (redacted.SOCKS5.Auth.Users[j].PasswordHash == "" || redacted.SOCKS5.Auth.Users[j].PasswordHash == "[REDACTED]")
+//@ ensures result != nil && result != c
+//@ ensures (result.TLS.Key == "" || result.TLS.Key == "[REDACTED]") && (result.TLS.KeyPEM == "" || result.TLS.KeyPEM == "[REDACTED]")
+//@ ensures forall j in 0..len(result.Peers): (result.Peers[j].ProxyAuth.Password == "" || result.Peers[j].ProxyAuth.Password == "[REDACTED]") && (result.Peers[j].TLS.Key == "" || result.Peers[j].TLS.Key == "[REDACTED]") && (result.Peers[j].TLS.KeyPEM == "" || result.Peers[j].TLS.KeyPEM == "[REDACTED]")
+//@ ensures forall j in 0..len(result.Listeners): (result.Listeners[j].TLS.Key == "" || result.Listeners[j].TLS.Key == "[REDACTED]") && (result.Listeners[j].TLS.KeyPEM == "" || result.Listeners[j].TLS.KeyPEM == "[REDACTED]")
+//@ ensures forall j in 0..len(result.SOCKS5.Auth.Users): (result.SOCKS5.Auth.Users[j].Password == "" || result.SOCKS5.Auth.Users[j].Password == "[REDACTED]") && (result.SOCKS5.Auth.Users[j].PasswordHash == "" || result.SOCKS5.Auth.Users[j].PasswordHash == "[REDACTED]")
+//@ ensures (result.Agent.PrivateKey == "" || result.Agent.PrivateKey == "[REDACTED]") && (result.FileTransfer.PasswordHash == "" || result.FileTransfer.PasswordHash == "[REDACTED]") && (result.Shell.PasswordHash == "" || result.Shell.PasswordHash == "[REDACTED]")
+//@ ensures (result.Management.PrivateKey == "" || result.Management.PrivateKey == "[REDACTED]") && (result.Management.SigningPrivateKey == "" || result.Management.SigningPrivateKey == "[REDACTED]")
